@@ -112,6 +112,19 @@ def _flag_edge_justified(g: CFG, n: Node, lab, justified: EdgePred, start: Optio
             try:
                 if justified(pseudo, ll):
                     continue
+                # flag = A and B: the flag being true means every conjunct is true (flag = A or B: false means every
+                # disjunct is false) - one justified conjunct is enough
+                if isinstance(vv, ast.BoolOp) and ((isinstance(vv.op, ast.And) and ll == "T") or (isinstance(vv.op, ast.Or) and ll == "F")):
+                    hit_ = False
+                    for part in vv.values:
+                        pp, pl = part, ll
+                        while isinstance(pp, ast.UnaryOp) and isinstance(pp.op, ast.Not):
+                            pp, pl = pp.operand, ("F" if pl == "T" else "T")
+                        if justified(Node(-1, "test", pp, loops=d.loops), pl):
+                            hit_ = True
+                            break
+                    if hit_:
+                        continue
                 if isinstance(vv, ast.Name):
                     # flag = other_flag
                     inner = Node(d.id, "test", vv, loops=d.loops)
